@@ -52,6 +52,11 @@ Names == {Desc(n, <<MType("T", OddStruct), MMethod("M", OddStruct, OddStruct2), 
                     MError("E", <<OddStructE>>), MError("Bare", <<>>), MError("Empty", <<Struct(<<>>)>>)>>) : n \in IfaceNames}
          \cup {Desc("a.b", <<MError("E", <<Struct(<<F("error", Leaf("string")), F("code", Leaf("int"))>>)>>), MMethod("M", Struct(<<>>), Struct(<<>>))>>)}
          \cup {Desc("a.b", <<MError("OnlyBare", <<>>), MMethod("M", Struct(<<>>), Struct(<<>>))>>)}
+         \* members called like identifiers one could derive from another member's name
+         \cup {Desc("a.b", <<MMethod("Ping", Struct(<<F("x", Leaf("int"))>>), Struct(<<F("y", Leaf("int"))>>)),
+                            MType("PingMethods", Struct(<<F("a", Leaf("int"))>>)), MType("PingCall", Struct(<<>>)), MType("ReplyPing", Struct(<<>>)),
+                            MError("PingError", <<Struct(<<F("x", Leaf("int"))>>)>>), MMethod("PingIn", Struct(<<>>), Struct(<<>>)), MType("PingOut", Leaf("int")),
+                            MMethod("Methods", Struct(<<>>), Struct(<<>>)), MType("Interface", Struct(<<>>))>>)}
          \* field names that differ only in case (JSON member names are case-sensitive, Go's decoder is not)
          \cup {Desc("a.b", <<MMethod("M", Struct(<<F("ab", Leaf("int")), F("aB", Leaf("int"))>>), Struct(<<F("xy", Leaf("string")), F("xY", Leaf("string")), F("s", Struct(<<F("kk", Leaf("int")), F("kK", Leaf("int"))>>))>>)),
                             MError("E", <<Struct(<<F("ab", Leaf("int")), F("aB", Leaf("int"))>>)>>)>>)}
